@@ -30,7 +30,7 @@ impl Hasher for Recorder {
     }
 }
 
-fn hashes<T: Hash>(x: &T) -> (u64, Vec<u8>) {
+fn hashes<T: Hash + ?Sized>(x: &T) -> (u64, Vec<u8>) {
     let mut d = std::collections::hash_map::DefaultHasher::new();
     x.hash(&mut d);
     let mut r = Recorder::default();
@@ -77,6 +77,34 @@ fn check_ark(r1: &Recipe, r2: &Recipe, ctx: &mut Ctx) -> Result<(), Failure> {
         let (h1, h2) = (hashes(&a1), hashes(&a2));
         if h1 != h2 {
             ctx.report("C08|ark:AffinePoint|hash", "equal affine points (different representatives) hash differently".to_string())?;
+        }
+        // containers hash through Hash::hash_slice: slices, arrays, Vec, tuples, Option of equal values
+        let g = AE::GENERATOR;
+        if hashes(&[e1, g][..]) != hashes(&[e2, g][..]) || hashes(&vec![g, e1]) != hashes(&vec![g, e2]) || hashes(&[e1; 3]) != hashes(&[e2; 3]) || hashes(&(e1, 7u8)) != hashes(&(e2, 7u8)) || hashes(&Some(e1)) != hashes(&Some(e2)) {
+            ctx.report("C08|ark:Element|hash-of-container", "containers (slice / Vec / array / tuple / Option) of equal elements hash differently".to_string())?;
+        }
+        let ga: AA = g.into_affine();
+        if hashes(&[a1, ga][..]) != hashes(&[a2, ga][..]) || hashes(&vec![ga, a1]) != hashes(&vec![ga, a2]) || hashes(&Some(a1)) != hashes(&Some(a2)) {
+            ctx.report("C08|ark:AffinePoint|hash-of-container", "containers of equal affine points hash differently".to_string())?;
+        }
+        // every serialisation mode the library implements writes the same bytes for equal values
+        {
+            use ark_serialize::{CanonicalSerialize, Compress};
+            use std::panic::{catch_unwind, AssertUnwindSafe};
+            for mode in [Compress::Yes, Compress::No] {
+                let ser_e = |e: &AE| catch_unwind(AssertUnwindSafe(|| { let mut v = Vec::new(); e.serialize_with_mode(&mut v, mode).map(|_| v).ok() })).ok().flatten();
+                let ser_a = |a: &AA| catch_unwind(AssertUnwindSafe(|| { let mut v = Vec::new(); a.serialize_with_mode(&mut v, mode).map(|_| v).ok() })).ok().flatten();
+                if let (Some(x), Some(y)) = (ser_e(&e1), ser_e(&e2)) {
+                    if x != y {
+                        ctx.report("C08|ark:Element|serialization-of-equal-values", format!("equal elements serialise differently ({})", if matches!(mode, Compress::Yes) { "compressed" } else { "uncompressed" }))?;
+                    }
+                }
+                if let (Some(x), Some(y)) = (ser_a(&a1), ser_a(&a2)) {
+                    if x != y {
+                        ctx.report("C08|ark:AffinePoint|serialization-of-equal-values", format!("equal affine points serialise differently ({})", if matches!(mode, Compress::Yes) { "compressed" } else { "uncompressed" }))?;
+                    }
+                }
+            }
         }
     } else {
         // not required by the property, but recorded: unequal elements with equal hash streams
